@@ -67,6 +67,26 @@ def wrong(r, v):
     return v
 
 
+def hb_per_device_cases(r, thorough):
+    """multi-device nodes whose devices are given DIFFERENT heartbeat intervals by request group functions; the heartbeat forced by each request
+    (and by a later request that changes nothing but the offset) must state the interval of the device that was asked (also used by the C12 check)"""
+    cases = []
+    for rep in range(4 if not thorough else 40):
+        ndev = r.choice([2, 3])
+        src0 = r.choice([22, 100])
+        cfg = node(ndev=ndev, src=src0, mode=r.choice([1, 2]), extra=' hb=1')
+        ivs = r.sample([1000, 2500, 5000, 7000, 12000, 30000, 60000], ndev)
+        blocks = []
+        for i in range(ndev):
+            blocks.append(block(r, 'fp', 50, own_addr(src0, i), gf_request(126993, ivs[i], 0xffff), wait=False))
+        order = list(range(ndev))
+        r.shuffle(order)
+        for i in order:
+            blocks.append(block(r, 'fp', 51, own_addr(src0, i), gf_request(126993, 0xffffffff, r.choice([0, 100, 500])), wait=False))
+        cases.append(case(cfg, ops_of(blocks) + ['T %d' % (max(ivs) + 1500), 'P', 'T 3', 'P']))
+    return cases
+
+
 def conf_change_cases(r, thorough):
     """configured strings + a command that replaces one description + read-back by ISO request (also used by the C08 check)"""
     cases = []
@@ -228,6 +248,7 @@ def gen(seed, tier):
             blocks.append(['M', iso_request(51, 22, 126998), 'P', 'T 3', 'P'])
         cases.append(case(cfg1, ops_of(blocks)))
     cases += conf_change_cases(r, thorough)
+    cases += hb_per_device_cases(r, thorough)
     # E4. product information set by the application, strings of 1..32 characters (32 = the whole field): requests whose selection field
     #     equals the stored string, differs in the LAST character only, differs in the first, is a proper prefix / extension of it
     def ptext(n):
